@@ -9,6 +9,8 @@ import (
 	"errors"
 	"fmt"
 	"net"
+	"strconv"
+	"strings"
 
 	_ "github.com/mattn/go-sqlite3"
 )
@@ -42,7 +44,7 @@ func loadRecords(db *sql.DB) (map[string]*Record, error) {
 		if err := rows.Scan(&mac, &ip, &expiry, &hostname); err != nil {
 			return nil, fmt.Errorf("failed to scan row: %w", err)
 		}
-		hwaddr, err := net.ParseMAC(mac)
+		hwaddr, err := parseHWAddr(mac)
 		if err != nil {
 			return nil, fmt.Errorf("malformed hardware address: %s", mac)
 		}
@@ -56,6 +58,27 @@ func loadRecords(db *sql.DB) (map[string]*Record, error) {
 		return nil, fmt.Errorf("failed lease database row scanning: %w", err)
 	}
 	return records, nil
+}
+
+// parseHWAddr parses a hardware address as written by saveIPAddress, that is
+// net.HardwareAddr.String(): colon-separated hex bytes. Unlike net.ParseMAC it
+// accepts every length a DHCPv4 chaddr can have (0 to 16 bytes), and a single
+// digit per byte because sqlite gives the `string` column numeric affinity and
+// hands a one-byte address such as "07" back as "7".
+func parseHWAddr(s string) (net.HardwareAddr, error) {
+	if s == "" {
+		return net.HardwareAddr{}, nil
+	}
+	fields := strings.Split(s, ":")
+	hwaddr := make(net.HardwareAddr, len(fields))
+	for i, f := range fields {
+		b, err := strconv.ParseUint(f, 16, 8)
+		if err != nil || len(f) > 2 {
+			return nil, fmt.Errorf("invalid hardware address %q", s)
+		}
+		hwaddr[i] = byte(b)
+	}
+	return hwaddr, nil
 }
 
 // saveIPAddress writes out a lease to storage
